@@ -12,6 +12,7 @@ and C05 (isolation).
 
 No oracle lives here."""
 import collections
+import gc
 
 import numpy as np
 from hypothesis import strategies as st
@@ -278,6 +279,30 @@ def disk_format(fs, want):
     return 'NETCDF4'
 
 
+def save_released(f, path, fmt):
+    """f.save(...) with full handle discipline (DESIGN R8b): the written
+    dataset is closed, the LAST reference is dropped and the cyclic GC runs
+    before anything else is opened - otherwise the finaliser of the closed
+    dataset fires later and closes whatever file has recycled its id (the
+    C05 defect would then show up under other names)"""
+    o = f.save(path, format=fmt, verbose=0)
+    o.close()
+    o = None
+    gc.collect()
+
+
+def close_all(handles):
+    """close and finalise disk handles; empties the list in place"""
+    while handles:
+        h = handles.pop()
+        try:
+            h.close()
+        except Exception:
+            pass
+        h = None
+    gc.collect()
+
+
 def build(fs, keep=None):
     """library object for a spec (FileSpec with optional 'route', or
     IoapiSpec).  Disk routes register what must be released in `keep`."""
@@ -289,9 +314,7 @@ def build(fs, keep=None):
             return f0
         # "a reader": saved as netCDF and reopened through the ioapi reader
         path = libstate.scratch_path('.nc')
-        o = f0.save(path, format='NETCDF3_CLASSIC', verbose=0)
-        libstate.release(o)
-        del o
+        save_released(f0, path, 'NETCDF3_CLASSIC')
         f = pncopen(path, format='ioapi')
         if keep is not None:
             keep.append(f)
@@ -307,9 +330,7 @@ def build(fs, keep=None):
             **OD((k, v) for k, v in f0.variables.items()))
     fmt = disk_format(fs, route)
     path = libstate.scratch_path('.nc')
-    o = f0.save(path, format=fmt, verbose=0)
-    libstate.release(o)
-    del o
+    save_released(f0, path, fmt)
     f = pncopen(path, format='netcdf')
     if keep is not None:
         keep.append(f)
@@ -668,13 +689,21 @@ def applicable(info):
     return ops
 
 
-def draw_step(draw, info, allow=None, weights=None):
+def draw_step(draw, info, allow=None, weights=None, rot=0):
+    """`rot` rotates the pool (callers pass a number derived from the case
+    so far): Hypothesis favours the first element of sampled_from, and a
+    fixed order would starve the operations at the end of the list"""
     ops = applicable(info)
     if allow is not None:
         ops = [o for o in ops if o in allow]
     pool = []
-    for o in ops:
+    for o in sorted(ops):
         pool += [o] * (weights or {}).get(o, 1)
+    # interleave so that neighbours differ, then rotate
+    pool = [pool[(i * 7) % len(pool)] for i in range(len(pool))] \
+        if len(pool) % 7 else pool
+    k = rot % len(pool)
+    pool = pool[k:] + pool[:k]
     op = draw(st.sampled_from(pool))
     return dict(op=op, args=DRAW[op](draw, info), ood=None)
 
@@ -688,18 +717,20 @@ OOD_KINDS = ['slice-unknown-dim', 'slice-index-range', 'slice-list-lengths',
 
 
 def draw_ood(draw, info):
-    kinds = ['copy-vars-nodims', 'rmsing-unknown', 'slice-unknown-dim',
-             'apply-unknown-dim', 'rendim-unknown', 'renvar-unknown',
-             'subset-unknown', 'reorder-unknown', 'stack-unknown-dim',
-             'interp-unknown-dim']
+    kinds = []
     names = list(info.dims)
     pos = [d for d in names if info.dims[d][0] >= 1]
     if names:
-        kinds += ['slice-index-range', 'insert-existing']
+        kinds += ['slice-index-range', 'slice-index-range',
+                  'insert-existing']
     if len(pos) >= 2:
-        kinds.append('slice-list-lengths')
+        kinds += ['slice-list-lengths'] * 2
     if any(info.dims[d][0] >= 2 for d in names) and len(names) >= 2:
-        kinds.append('stack-nonconforming')
+        kinds += ['stack-nonconforming'] * 2
+    kinds += ['reorder-unknown', 'subset-unknown', 'renvar-unknown',
+              'rendim-unknown', 'stack-unknown-dim', 'interp-unknown-dim',
+              'apply-unknown-dim', 'slice-unknown-dim', 'rmsing-unknown',
+              'copy-vars-nodims']
     odd = [d for d in names if info.oddcoord(d) and info.dims[d][0] >= 1]
     if odd:
         kinds += ['slice-oddcoord'] * 3
@@ -764,15 +795,9 @@ def draw_ood(draw, info):
             sel=[[zd[0], 'list', [0]], [zd[1], 'list', [0, 0]]],
             newdims=[info.fresh('P')]))
     if kind == 'stack-nonconforming':
-        d = draw(st.sampled_from(names))
-        cand = [x for x in names if x != d and info.dims[x][0] >= 2]
-        if not cand:
-            d = [x for x in names if info.dims[x][0] < 2 or True][0]
-            cand = [x for x in names if x != d and info.dims[x][0] >= 2]
-        if not cand:
-            return dict(op='stack', ood='stack-unknown-dim',
-                        args=dict(dim=bad, other=['copy'], aslist=False))
-        e = draw(st.sampled_from(cand))
+        # the operand is shorter along a dimension that is not stacked
+        e = draw(st.sampled_from([x for x in names if info.dims[x][0] >= 2]))
+        d = draw(st.sampled_from([x for x in names if x != e]))
         return dict(op='stack', ood=kind, args=dict(
             dim=d, other=['sliceother', e, 0, 1], aslist=False))
     raise KeyError(kind)
